@@ -206,19 +206,48 @@ func init() {
 	progOps["reducefn"] = func(w *world, f []string) string {
 		t := w.ts[atoi(f[2])]
 		var fn, def interface{}
-		switch w.dt {
-		case "f64":
+		// the user function: a+b, or the smaller / the bigger of the two; the default value is 0
+		switch w.dt + ":" + f[1] {
+		case "f64:sum":
 			fn, def = func(a, b float64) float64 { return a + b }, float64(0)
-		case "f32":
+		case "f64:min":
+			fn, def = func(a, b float64) float64 {
+				if b < a {
+					return b
+				}
+				return a
+			}, float64(0)
+		case "f64:max":
+			fn, def = func(a, b float64) float64 {
+				if b > a {
+					return b
+				}
+				return a
+			}, float64(0)
+		case "f32:sum":
 			fn, def = func(a, b float32) float32 { return a + b }, float32(0)
-		case "i":
+		case "i:sum":
 			fn, def = func(a, b int) int { return a + b }, int(0)
-		case "i64":
+		case "i:min":
+			fn, def = func(a, b int) int {
+				if b < a {
+					return b
+				}
+				return a
+			}, int(0)
+		case "i:max":
+			fn, def = func(a, b int) int {
+				if b > a {
+					return b
+				}
+				return a
+			}, int(0)
+		case "i64:sum":
 			fn, def = func(a, b int64) int64 { return a + b }, int64(0)
-		case "i32":
+		case "i32:sum":
 			fn, def = func(a, b int32) int32 { return a + b }, int32(0)
 		default:
-			panic("reducefn dtype")
+			panic("reducefn dtype/function")
 		}
 		r, err := t.Reduce(fn, atoi(f[3]), def)
 		if err != nil {
